@@ -19,18 +19,18 @@ func VerifC03Pool() {
 	nhosts := verifapi.Param("hosts", 2)
 	db := memory.New()
 	wallet := store.Account(verifapi.Wallet(0))
-	dep := &verifDeposits{Store: db, deposit: map[store.Account]*big.Int{wallet: verifapi.BigInt("deposit")}}
+	dep := &VerifDeposits{Store: db, Deposit: map[store.Account]*big.Int{wallet: verifapi.BigInt("deposit")}}
 	min := verifapi.BigInt("min")
 	price := big.NewInt(100000000000)
-	p := verifPool(db, dep, price, 60000000000, min)
+	p := VerifNewPool(db, dep, price, 60000000000, min)
 	t0 := verifapi.Time("t0")
 	verifapi.SetNow(t0)
 
 	// hosts: registered directly (store + connection registry); connecting a
 	// host through the endpoint is VerifC03HostConnect
-	hosts := make([]*verifHost, nhosts)
+	hosts := make([]*VerifHost, nhosts)
 	for i := range hosts {
-		hosts[i] = &verifHost{name: fmt.Sprint("h", i), addr: "192.0.2.1:1234", behaviours: verifapi.Param("behaviours", 2)}
+		hosts[i] = &VerifHost{Name: fmt.Sprint("h", i), Addr: "192.0.2.1:1234", Behaviours: verifapi.Param("behaviours", 2)}
 		hid := store.NodeID(verifapi.NodeID(1 + i))
 		db.SetNode(store.Node{ID: hid, IsHost: true, Kind: "geth", LastSeen: t0, URI: "enode://" + string(hid) + "@192.0.2.1:30303"})
 		p.remoteHosts[hid] = hosts[i]
@@ -42,7 +42,7 @@ func VerifC03Pool() {
 
 	// the client: linked to the wallet (so that it has a deposit) or on trial
 	cid := verifapi.NodeID(0)
-	clientSvc := &verifHost{name: "client"}
+	clientSvc := &VerifHost{Name: "client"}
 	credit := verifapi.BigInt("credit")
 	linked := verifapi.Bool("clientlinked")
 	db.SetNode(store.Node{ID: store.NodeID(cid), LastSeen: t0})
@@ -52,9 +52,9 @@ func VerifC03Pool() {
 	db.AddNodeBalance(store.NodeID(cid), credit)
 	spendable := new(big.Int).Set(credit)
 	if linked {
-		spendable.Add(spendable, dep.deposit[wallet])
+		spendable.Add(spendable, dep.Deposit[wallet])
 	}
-	_, err := verifConnect(p, clientSvc, cid, false, "")
+	_, err := VerifConnect(p, clientSvc, cid, false, "")
 	verifapi.Reach("c03.pool.connect")
 	if lbe, ok := err.(balance.LowBalanceError); ok {
 		verifapi.Assert(spendable.Cmp(min) < 0, "c03.pool.connect-at-or-above-min-accepted")
@@ -69,7 +69,7 @@ func VerifC03Pool() {
 	for i := range hosts {
 		hostIDs = append(hostIDs, verifapi.NodeID(1+i))
 	}
-	if _, err := verifUpdate(p, context.Background(), cid, hostIDs...); err != nil {
+	if _, err := VerifUpdate(p, context.Background(), cid, hostIDs...); err != nil {
 		verifapi.Unreachable("c03.pool.first-update")
 		return
 	}
@@ -87,7 +87,7 @@ func VerifC03Pool() {
 	verifapi.SetNow(t0.Add(dt))
 	before, _ := dep.GetNodeBalance(store.NodeID(cid))
 	_ = before
-	_, err = verifUpdate(p, context.Background(), cid, hostIDs...)
+	_, err = VerifUpdate(p, context.Background(), cid, hostIDs...)
 	verifapi.Reach("c03.pool.update")
 	after, _ := dep.GetNodeBalance(store.NodeID(cid))
 	spendAfter := new(big.Int).Add(&after.Credit, &after.Deposit)
@@ -97,7 +97,7 @@ func VerifC03Pool() {
 		verifapi.Assert(spendAfter.Cmp(min) < 0, "c03.pool.update-at-or-above-min-never-cut-off")
 		verifapi.Assert(lbe.CurrentBalance.Cmp(spendAfter) == 0, "c03.pool.update-error-balance")
 		for i, h := range hosts {
-			n := h.count("vipnode_disconnect", cid)
+			n := h.Count("vipnode_disconnect", cid)
 			if connected[i] {
 				verifapi.Assert(n == 1, "c03.pool.connected-host-told-to-disconnect-once")
 			} else {
@@ -108,7 +108,7 @@ func VerifC03Pool() {
 		verifapi.Assert(err == nil, "c03.pool.update-no-other-error")
 		verifapi.Assert(spendAfter.Cmp(min) >= 0, "c03.pool.update-below-min-cut-off")
 		for _, h := range hosts {
-			verifapi.Assert(h.count("vipnode_disconnect", cid) == 0, "c03.pool.no-disconnect-without-cutoff")
+			verifapi.Assert(h.Count("vipnode_disconnect", cid) == 0, "c03.pool.no-disconnect-without-cutoff")
 		}
 	}
 }
@@ -118,9 +118,9 @@ func VerifC03Pool() {
 func VerifC03HostConnect() {
 	db := memory.New()
 	wallet := store.Account(verifapi.Wallet(0))
-	dep := &verifDeposits{Store: db, deposit: map[store.Account]*big.Int{wallet: verifapi.BigInt("deposit")}}
+	dep := &VerifDeposits{Store: db, Deposit: map[store.Account]*big.Int{wallet: verifapi.BigInt("deposit")}}
 	min := verifapi.BigInt("min")
-	p := verifPool(db, dep, big.NewInt(100000000000), 60000000000, min)
+	p := VerifNewPool(db, dep, big.NewInt(100000000000), 60000000000, min)
 	verifapi.SetNow(verifapi.Time("t0"))
 	hid := verifapi.NodeID(1)
 	// arbitrary earlier state of the host: unknown, or registered with a linked / trial balance
@@ -131,8 +131,8 @@ func VerifC03HostConnect() {
 		}
 		db.AddNodeBalance(store.NodeID(hid), verifapi.BigInt("credit"))
 	}
-	svc := &verifHost{name: "h", addr: "192.0.2.1:1234"}
-	_, err := verifConnect(p, svc, hid, true, "")
+	svc := &VerifHost{Name: "h", Addr: "192.0.2.1:1234"}
+	_, err := VerifConnect(p, svc, hid, true, "")
 	verifapi.Reach("c03.hostconnect")
 	_, isLow := err.(balance.LowBalanceError)
 	verifapi.Class("onclient-applied-to-hosts", true)
